@@ -311,5 +311,19 @@ def _ords(spec, ctx, R):
             ctx.check("ord_spellings", abs(v - O["fro"]), 64 * (m * n + 4) * refq.EPS * max(O["fro"], 1e-300) + 1e-300, site="matrix_norm(omitted)")
         except Exception as e:
             ctx.check("ord_spellings", False, site="matrix_norm(omitted)", detail={"exception": repr(e)})
+        # the spectral norm of exactly (power of two) scaled matrices whose SQUARED entries under- or overflow: the largest singular
+        # value itself is an ordinary double there (the other norms are not judged at these scales: they square the entries)
+        s_ref = float(embed.svals(A)[0])
+        for p2 in (-560, -530, -500, 400, 510, 520):
+            try:
+                with np.errstate(all="ignore"):
+                    v = float(U.matrix_norm(A * 2.0 ** p2, 2)) * 2.0 ** (-p2)
+                    v2 = float(U.spectral_norm_2(A * 2.0 ** p2)) * 2.0 ** (-p2)
+            except Exception as e:
+                ctx.check("norm2_definition", False, site="matrix_norm(2):scaled_2^%d" % p2, tags=["extreme_scale"], detail={"exception": repr(e)[:200]})
+                continue
+            ctx.hit("scale:pow2_extreme_norm2")
+            ctx.check("norm2_definition", max(abs(v - s_ref), abs(v2 - s_ref)), 64 * (m * n + 4) * refq.EPS * max(s_ref, 1e-300) + 1e-300,
+                      site="matrix_norm(2):scaled_2^%d" % p2, tags=["extreme_scale"], detail={"returned": v, "oracle": s_ref})
         ctx.check("args_unchanged", np.array_equal(before, refq.fa(A)), site="matrix_norm")
     ctx.sample({"unknown_ords": [repr(o) for o in UNKNOWN_ORDS]})
